@@ -29,6 +29,19 @@ type UB struct {
 	V int    `json:"v"`
 	W string `json:"w"`
 }
+
+// UB names itself after its value (a TypeNamer whose name depends on the value, like PEnv): the zero value - which is
+// what RegisterUpcast[_, UB] and RegisterUpcast[UB, _] derive the edge's name from - has one name, every UB that upAB
+// produces or that is stored has another W and would report another. The name of an upcast edge is that of the type
+// it was registered for, so the model and the stored events use nameUB = EventType(UB{}) throughout; only code that
+// names the edge after the value an upcaster happened to produce sees the other name.
+func (b UB) EventTypeName() string {
+	if b.W == "" {
+		return "props.UB.v2"
+	}
+	return "props.UB.v2/" + b.W[:1]
+}
+
 type UC struct {
 	Total int      `json:"total"`
 	Tags  []string `json:"tags"`
